@@ -46,7 +46,9 @@ RULE = ("one case = one generated device class tree (0..3 embedded devices, nest
         "custom-header options on/off) + an operation sequence of M-SEARCH deliveries "
         "(ssdp:all, rootdevice, every UDN, every device/service type at versions 0..5, foreign and malformed targets, "
         "random letter case; MX absent / 0..10 / negative / non-numeric; jitter choice min / max / random; delivered as a "
-        "datagram through SsdpProtocol or directly to _on_data), clock advances, announcer start and stop; every emitted "
+        "datagram through SsdpProtocol or directly to _on_data; several searches from one requester socket, also while "
+        "answers to it are pending), clock advances, announcer start and stop (async_start/async_stop, or the whole SSDP "
+        "side through UpnpServer), observation up to 1850 s; every emitted "
         "datagram is compared byte for byte and fed to a real SsdpListener. non-trivial = at least one datagram was "
         "emitted; distinct = distinct canonical driver text")
 EXHAUSTIVE = {"quick": False, "thorough": False}
@@ -724,7 +726,7 @@ def generate(ctx: Ctx) -> List[Case]:
     cases: List[Case] = []
     for i, rec in enumerate(CORPUS):
         cases.append(run_recipe(ctx, rec, f"corpus{i}"))
-    n_trees = 3000 if ctx.thorough else 150
+    n_trees = 2400 if ctx.thorough else 150
     recipes: List[Dict[str, Any]] = []
     for ti in range(n_trees):
         tree = rand_tree(ctx.rng)
